@@ -65,7 +65,7 @@ def main(argv):
 
     # replay files of earlier runs of this check are stale once it runs again
     import shutil
-    shutil.rmtree(os.path.join(core.VERIF, 'replays', prop), ignore_errors=True)
+    shutil.rmtree(os.path.join(os.environ.get('VP_REPLAY_DIR') or os.path.join(core.VERIF, 'replays'), prop), ignore_errors=True)
     ctx = {'tier': tier, 'seed': seed}
     try:
         items = check.plan(ctx)
